@@ -28,9 +28,14 @@ func init() {
 			"(rejoin) a store of a new output channel comes with fresh syncedPolicies/Profiles/IPSets maps before anything is sent; " +
 			"(cache) the caches follow the dataplane feed independently of clients: for every message kind K, the function the type-switch dispatcher hands a *proto.<K>Remove to deletes from the Processor map " +
 			"that the <K>Update handler fills on every normally returning path (in place, via a callee or a deferred function; only a comma-ok 'absent' branch of that same map is exempt), " +
-			"and every kind whose Update handler fills a Processor map has a Remove handler.",
+			"and every kind whose Update handler fills a Processor map has a Remove handler; " +
+			"(drain) the function that registers a per-connection queue with the Processor (stores a channel it made into JoinRequest.C: Server.Sync) returns, on every path after the registration, only after a receive " +
+			"reported that queue closed (directly, via the exit of a range loop, or in a deferred drain closure whose every return is cut by ok == false of a receive / select case on it, or by the channel " +
+			"variable being nil where nil is only ever stored after such an observation) – the Processor's sends are blocking, so an undrained queue stalls every other workload's stream; " +
+			"(replace) elements of a repeated field of a full <K>Update feed message (one that has a <K>DeltaUpdate sibling: IPSetUpdate) are added to a collection stored in a policysync struct field only where that " +
+			"collection was replaced by a new one or cleared on every path (in the function, or at every static caller for the object passed): only delta messages are merged into the stored copy that late joiners are synced from.",
 		NotDecided: "That the calculation graph sends referenced objects first and removes references before objects (trusted by the Processor); contents of messages (latest version); that getIPSetsSync's " +
-			"set difference is right; server-side forwarding order (gRPC stream); InSync handling.",
+			"set difference is right; server-side forwarding order (gRPC stream); InSync handling; that the drain loop cannot block on something other than the queue (deadlock freedom of the select itself).",
 		Assumptions: []string{
 			"go/types + go/ssa (x/tools v0.50.0) model of the current source, CGO_ENABLED=0 build",
 			"the Processor handles one event at a time on one goroutine, so a non-nil test of ei.output stays true for the rest of the handler unless the handler itself stores to it",
@@ -96,6 +101,20 @@ func init() {
 			{Name: "re-join keeps the previous connection's IP sets", File: "felix/policysync/processor.go",
 				Old: "\tei.syncedIPSets = map[string]bool{}\n\n\tp.maybeSyncEndpoint(ei)\n", New: "\n\tp.maybeSyncEndpoint(ei)\n\tei.syncedIPSets = map[string]bool{}\n",
 				Expect: "C31.rejoin/Processor.handleJoin/syncedIPSets"},
+			{Name: "connection shutdown stops draining once the leave request is queued", File: "felix/policysync/server.go",
+				Old: "\t\tfor updates != nil || joinsCopy != nil {\n", New: "\t\tfor joinsCopy != nil {\n",
+				Expect: "C31.drain/Server.Sync/exit"},
+			{Name: "connection shutdown stops draining after the first discarded message", File: "felix/policysync/server.go",
+				Old: "\t\t\t\t\tlogCxt.Info(\"Shutting down: updates channel was closed by processor.\")\n\t\t\t\t\tupdates = nil\n\t\t\t\t}\n",
+				New: "\t\t\t\t\tlogCxt.Info(\"Shutting down: updates channel was closed by processor.\")\n\t\t\t\t}\n\t\t\t\tupdates = nil\n",
+				Expect: "C31.drain/Server.Sync/clear/Server.Sync$1"},
+			{Name: "full IP set update merged into the stored members", File: "felix/policysync/ipset.go",
+				Old: "\ts.replaceMembers(update)\n\treturn s\n}\n\nfunc (s *ipSetInfo) replaceMembers(update *proto.IPSetUpdate) {\n\ts.members = set.New[ipsets.IPSetMember]()\n",
+				New: "\ts.members = set.New[ipsets.IPSetMember]()\n\ts.replaceMembers(update)\n\treturn s\n}\n\nfunc (s *ipSetInfo) replaceMembers(update *proto.IPSetUpdate) {\n",
+				Expect: "C31.replace/ipSetInfo.members/ipSetInfo.replaceMembers"},
+			{Name: "stored members only allocated when missing", File: "felix/policysync/ipset.go",
+				Old: "\ts.members = set.New[ipsets.IPSetMember]()\n", New: "\tif s.members == nil {\n\t\ts.members = set.New[ipsets.IPSetMember]()\n\t}\n",
+				Expect: "C31.replace/ipSetInfo.members/ipSetInfo.replaceMembers"},
 		},
 	})
 }
@@ -163,6 +182,11 @@ func runC31(c *Ctx) {
 	c31Synced(m)
 	c31Rejoin(m)
 	c31Cache(m)
+
+	c.Rule("C31.drain", "E-GUARD (channel protocol)", "the function that registers a per-connection queue with the Processor (JoinRequest.C) returns only after it has observed the queue closed; the channel variable is cleared only where the close was observed", 1)
+	c31Drain(m)
+	c.Rule("C31.replace", "E-PAIR/E-FLOW", "elements of a full <K>Update message (one with a <K>DeltaUpdate sibling) are added to a stored collection only after that collection was replaced or cleared on every path", 1)
+	c31Replace(m)
 }
 
 func recvTypeName2(f *ssa.Function) string {
